@@ -35,7 +35,47 @@ def fib_shape(h):
     return _fib[h]
 
 
+def spine_shape(h, rng=None):
+    """a root-to-leaf path of h nodes whose off-path subtrees are the sparsest possible: at every level the off-path sibling is a
+    Fibonacci tree either as tall as the on-path child (the node is balanced: an insert at the bottom of the path raises its height)
+    or one shorter (the node leans towards the path: a delete at the bottom lowers it).  rng=None: all balanced, path on the left.
+    Returns (shape, directions from the root)."""
+    if h == 1:
+        return (None, None), []
+    sub, dirs = spine_shape(h - 1, rng)
+    sib = fib_shape(h - 1 if rng is None or rng.random() < 0.5 else h - 2)
+    if rng is not None and rng.random() < 0.5:
+        return (sib, sub), [1] + dirs
+    return (sub, sib), [0] + dirs
+
+
+def key_at(s, dirs):
+    """key (in dump_shape's numbering 2,4,6,..) of the node reached from the root of s by dirs"""
+    base = 0
+    for d in dirs:
+        if d:
+            base += 2 * (count(s[0]) + 1)
+        s = s[d]
+    return base + 2 * (count(s[0]) + 1)
+
+
+_ccache = {}
+
+
 def count(s):
+    if s is None:
+        return 0
+    k = id(s)
+    if k not in _ccache:
+        _ccache[k] = 1 + count(s[0]) + count(s[1])
+        _keep.append(s)
+    return _ccache[k]
+
+
+_keep = []
+
+
+def count_uncached(s):
     return 0 if s is None else 1 + count(s[0]) + count(s[1])
 
 
@@ -48,6 +88,7 @@ def height(s):
     k = id(s)
     if k not in _hcache:
         _hcache[k] = 1 + max(height(s[0]), height(s[1]))
+        _keep.append(s)     # the caches are keyed by id(): keep the object alive so that its id is never reused
     return _hcache[k]
 
 
@@ -172,13 +213,25 @@ def gen_cases(tier, seed):
             ops += [f"load {d}", "trav"]
         yield (f"exh-h{h}", ops, f"exhaustive-height-{h}")
     # deep trees: the sparsest AVL tree of height h (Fibonacci tree: every node's left subtree one taller) is where a single delete at the
-    # bottom of the short side makes the retrace rotate at EVERY level up to the root, and an insert at the bottom of the tall side changes
-    # every height on the way: heights 17-19 (4 180 - 10 945 nodes; thorough: up to 21 = 28 656 nodes)
+    # bottom of the short side makes the retrace rotate at every level from there (depth about h/2) up to the root, and a delete at the
+    # bottom of the tall side lowers every one of the h-1 ancestors: heights 17-19 (4 180 - 10 945 nodes; thorough: up to 21 = 28 656 nodes)
     for h in ((17, 18, 19) if tier == "quick" else (17, 18, 19, 20, 21)):
         f = fib_shape(h)
         d, n = dump_shape(f)
-        ops = [f"load {d}", f"del {2 * n}", "trav", f"load {d}", "ins 1", f"load {d}", f"del {2 * n}", f"del {2 * n - 2}", f"ins {2 * n + 1}", "ins -1", "trav"]
+        # del 2 = the deepest leaf of the tall side: every ancestor leans towards it, so all h-1 of them lose one level, without a rotation
+        ops = [f"load {d}", f"del {2 * n}", "trav", f"load {d}", "ins 1", f"load {d}", "del 2", "trav",
+               f"load {d}", f"del {2 * n}", f"del {2 * n - 2}", f"ins {2 * n + 1}", "ins -1", "trav"]
         yield (f"deep-h{h}", ops, f"deep-height-{h}")
+    # longest possible retraces: a path of h nodes with Fibonacci siblings; an insert below (delete of) the bottom of the path changes the
+    # height of every one of its h-1 ancestors (all-balanced spine), or of a random subset with rotations in between (random spines)
+    for h in ((17, 19) if tier == "quick" else (16, 17, 18, 19, 20, 21)):
+        for v in range(3 if tier == "quick" else 8):
+            sp, dirs = spine_shape(h, None if v == 0 else random.Random(seed * 131 + h * 17 + v))
+            d, n = dump_shape(sp)
+            k = key_at(sp, dirs)
+            ops = [f"load {d}", f"ins {k - 1}", "trav", f"load {d}", f"ins {k + 1}", f"load {d}", f"del {k}", "trav"] + \
+                  ([f"del {k - 2}"] if k - 2 >= 2 else []) + ([f"del {k + 2}"] if k + 2 <= 2 * n else []) + ["trav"]
+            yield (f"spine-h{h}-{v}", ops, f"spine-height-{h}-{v}")
     if tier == "thorough":
         ss = shapes(5)
         chunk = 4000
